@@ -28,10 +28,12 @@ META = {
             "_cylinder, _cylinder_grad, math.norm and its jax.grad, normalize_with_norm, safe_div and its jax.grad on points of every region, guard thresholds and "
             "zeros.  ORACLE on implementation output (support, no theorem): the custom rule's tangent and jax.grad of the cylinder SDF against central finite "
             "differences of the primal; all guarded gradients finite; jax reverse- and forward-mode Jacobians of random linear probes of mjx.forward (qacc) and "
-            "mjx.step (next qpos, qvel) with respect to qpos, qvel, ctrl against central finite differences on smooth, contact-free states of small models "
+            "mjx.step (next qpos, qvel) with respect to qpos, qvel, ctrl AND every real-valued model parameter array present (body_mass, body_inertia, body_pos/quat/ipos/iquat, "
+            "gravcomp, jnt_pos/axis/stiffness, qpos_spring, dof_damping/armature, actuator gain/bias/gear, tendon and site fields, opt.gravity/density/viscosity/wind/timestep) "
+            "against central finite differences (entries with body_mass / body_inertia exactly 0 are kinks of the code: finiteness only); models with the fluid model, wind "
+            "and gravity compensation; on smooth, contact-free states of small models "
             "(hinge/slide/ball/free joints, springs, dampers, actuators; massless welded leaf bodies carrying only a site / camera, static and below joints, "
-            "whose subtree mass is 0: the guarded division of smooth.com_pos; Euler, RK4, implicitfast), 1e-3 relative, and finite everywhere.  NOT COVERED: gradients "
-            "with respect to model parameters other than the cylinder size witness; states with contacts; the allclose bands (0 < c <= 1e-8) where the rule divides by "
+            "whose subtree mass is 0: the guarded division of smooth.com_pos; Euler, RK4, implicitfast), 1e-3 relative, and finite everywhere.  NOT COVERED: states with contacts; geom sizes other than the cylinder size witness; the allclose bands (0 < c <= 1e-8) where the rule divides by "
             "c + 1e-12; JAX's own differentiation rules.",
     "note": "Trusted: Coq kernel + standard-library real-number axioms (Coquelicot); hand-written model Model/MjxGrad.v; Lib/FloatFn-free float run (only + - * / sqrt abs "
             "comparisons); python driver c45_mjx.py; jax/numpy and the mujoco wheel 3.13.0 as the library MJX imports.",
@@ -46,14 +48,14 @@ TOL = "0x1p-30"
 
 PIPE_MODELS = [
     {"name": "pendulum_act", "tier": "quick", "xml":
-     """<mujoco><option timestep="0.005"/><worldbody><body pos="0 0 1"><joint name="a" type="hinge" axis="0 1 0" damping="0.1"/>
+     """<mujoco><option timestep="0.005" density="1.2" viscosity="0.02" wind="0.5 0.1 0"/><worldbody><body pos="0 0 1"><joint name="a" type="hinge" axis="0 1 0" damping="0.1"/>
      <geom type="capsule" fromto="0 0 0 0.3 0 0" size="0.03"/><body pos="0.3 0 0"><joint name="b" type="hinge" axis="0 1 0" stiffness="2" springref="0.2"/>
      <geom type="capsule" fromto="0 0 0 0.3 0 0" size="0.03"/>
      <body name="tool" pos="0.3 0 0" quat="0.9 0.1 0.3 0.2"><site name="tip" pos="0.02 0 0"/></body></body></body>
      <body name="fixture" pos="1 0 0"><site name="mark"/></body></worldbody>
      <actuator><motor joint="a" gear="2"/><position joint="b" kp="3"/></actuator></mujoco>""", "nq": 2, "nv": 2, "nu": 2, "quat": []},
     {"name": "ball_slide_rk4", "tier": "thorough", "xml":
-     """<mujoco><option timestep="0.004" integrator="RK4"/><worldbody><body pos="0 0 1"><joint name="bj" type="ball" damping="0.05"/>
+     """<mujoco><option timestep="0.004" integrator="RK4" density="1000" viscosity="0.001"/><worldbody><body pos="0 0 1" gravcomp="0.5"><joint name="bj" type="ball" damping="0.05"/>
      <geom type="capsule" fromto="0 0 0 0.3 0 0" size="0.03"/><body pos="0.3 0 0"><joint name="s" type="slide" axis="1 0 0" stiffness="30" damping="0.5"/>
      <geom size="0.05"/></body></body></worldbody><actuator><motor joint="s"/></actuator></mujoco>""", "nq": 5, "nv": 4, "nu": 1, "quat": [0]},
     {"name": "free_hinge_implicitfast", "tier": "thorough", "xml":
@@ -245,7 +247,7 @@ def run(ctx):
             continue
         for fn in ("forward", "step"):
             states = [rand_state(rng, mo, k) for k in range(2 if quick else 3)]
-            pjobs.append({"op": "pipeline", "xml": mo["xml"], "fn": fn, "nprobe": 2 if quick else 3, "seed": rng.randrange(1 << 30), "states": states})
+            pjobs.append({"op": "pipeline", "xml": mo["xml"], "fn": fn, "nprobe": 2 if quick else 3, "seed": rng.randrange(1 << 30), "states": states, "params": True})
             pmeta.append((mo, fn, states))
     for kf in KNOWN_F2:
         pjobs.append({"op": "pipeline", "xml": kf["xml"], "fn": kf["fn"], "nprobe": 3, "seed": 3, "states": kf["states"]})
@@ -340,6 +342,7 @@ def run(ctx):
             break
         pres += r
     lap("mjx_pipeline_wait")
+    pfields = set()
     pstats = {"jacobians": 0, "entries": 0, "worst_rev_vs_fd": 0.0, "worst_fwd_vs_rev": 0.0, "skipped": []}
     if pres is None:
         ctx.broken.append(("oracle", "driver c45_mjx.py (pipeline) failed", perr))
@@ -388,6 +391,39 @@ def run(ctx):
                                       expected=bad[1], observed="%s: %s" % (bad[0], bad[2]), theorem=None,
                                       signature={"site": "mjx." + fn + " gradient", "wrt": arg},
                                       note="support oracle: jax gradient of a random linear probe of the outputs on a smooth contact-free state")
+                # real-valued model parameters: every entry finite; AD = FD at every entry that is not on a kink of the code
+                # (body_mass / body_inertia exactly 0: masks `mass > 0`, maximum(mass, eps) and clip(.., min) switch there)
+                for pname, pv in (rs.get("params") or {}).items():
+                    pfields.add(pname)
+                    vals = pv["value"]
+                    rev = [[num(x) for x in row] for row in pv["rev"]]
+                    fwd = [[num(x) for x in row] for row in pv["fwd"]]
+                    fd = [[num(x) for x in row] for row in pv["fd"]]
+                    pstats["jacobians"] += 1
+                    pstats["entries"] += len(vals) * len(rev)
+                    pstats["param_entries"] = pstats.get("param_entries", 0) + len(vals) * len(rev)
+                    kink = [pname in ("body_mass", "body_inertia") and vals[k] == 0.0 for k in range(len(vals))]
+                    bad = None
+                    nf = [(r_, k) for r_ in range(len(rev)) for k in range(len(vals))
+                          if rev[r_][k] != rev[r_][k] or abs(rev[r_][k]) == math.inf or fwd[r_][k] != fwd[r_][k] or abs(fwd[r_][k]) == math.inf]
+                    if nf:
+                        bad = ("non-finite gradient entries at indices %s" % [k for _, k in nf][:8], "finite", "nan/inf present")
+                    else:
+                        scale = 1 + max(abs(x) for row in fd for x in row)
+                        d1 = max([abs(rev[r_][k] - fd[r_][k]) for r_ in range(len(rev)) for k in range(len(vals)) if not kink[k]] + [0.0]) / scale
+                        d2 = max(abs(a - b) for ra, rb in zip(rev, fwd) for a, b in zip(ra, rb)) / scale
+                        pstats["worst_param_rev_vs_fd"] = max(pstats.get("worst_param_rev_vs_fd", 0.0), d1)
+                        if d1 > 1e-3:
+                            bad = ("jax.jacrev vs central finite differences", "relative difference <= 1e-3", d1)
+                        elif d2 > 1e-7:
+                            bad = ("jax.jacfwd vs jax.jacrev", "relative difference <= 1e-7", d2)
+                    if bad:
+                        ctx.violation("impl_violation", {"model": mo["name"], "mjcf": mo["xml"], "fn": "mjx." + fn, "wrt": "model." + pname, "state": s,
+                                                         "parameter_values": vals},
+                                      expected=bad[1], observed="%s: %s" % (bad[0], bad[2]), theorem=None,
+                                      signature={"site": "mjx." + fn + " gradient", "wrt": "model." + pname},
+                                      note="support oracle: jax gradient with respect to a real-valued model parameter on a smooth contact-free state")
+    pstats["param_fields"] = sorted(pfields)
     pstats["worst_rev_vs_fd"] = float("%.3g" % pstats["worst_rev_vs_fd"])
     pstats["worst_fwd_vs_rev"] = float("%.3g" % pstats["worst_fwd_vs_rev"])
     sup = ctx.cov["support"]
